@@ -83,6 +83,15 @@ func genCase(t *rapid.T) sim.Spec {
 		s.Initial[0] = sim.Content{Kind: "good", Set: sim.DrawSet(t, "confset")}
 	}
 	s.Events = sim.DrawEvents(t, &s, rapid.IntRange(4, 16).Draw(t, "nev"), 5, true)
+	// rarely: a download whose connection is reset in the middle of the body (costs 2 s of loader retries)
+	if rapid.IntRange(0, 11).Draw(t, "abort") == 0 {
+		for i := range s.Events {
+			if s.Events[i].Kind == "origin" {
+				s.Events[i].Content = sim.Content{Kind: "abort", Set: sim.DrawSet(t, "abortset")}
+				break
+			}
+		}
+	}
 	return s
 }
 
@@ -186,6 +195,10 @@ func (o *observer) AfterEvent(i int, e sim.Event, w *sim.World, m *sim.Model) er
 		}
 		if hex64.MatchString(n) && n != foreignStoreDir {
 			cur[n] = true
+			continue
+		}
+		if n != foreignStoreDir && !isForeign(n) {
+			return fmt.Errorf("unexpected artefact %q in work_dir after the event (neither a store directory nor one of the planted foreign files)", n)
 		}
 	}
 	for _, f := range foreign {
@@ -222,6 +235,15 @@ func (o *observer) AfterEvent(i int, e sim.Event, w *sim.World, m *sim.Model) er
 	return nil
 }
 
+func isForeign(n string) bool {
+	for _, f := range foreign {
+		if f == n {
+			return true
+		}
+	}
+	return false
+}
+
 func keysOf(m map[int]bool) []int {
 	var k []int
 	for x := range m {
@@ -250,6 +272,11 @@ func runCase(s sim.Spec, x *ev.Ctx) error {
 	x.Classf("spelling=%s", s.Config.WorkDirSpelling)
 	if res.RejectedLoads > 0 {
 		x.Class("failed-load")
+	}
+	for _, e := range s.Events {
+		if e.Kind == "origin" && e.Content.Kind == "abort" {
+			x.Class("download-reset-mid-body")
+		}
 	}
 	if res.Restarts > 0 {
 		x.Class("restart")
@@ -305,12 +332,19 @@ func genCycle(t *rapid.T) Cycle {
 	}
 }
 
+// repoGoroutines counts goroutines that were STARTED by the plugin or by leveldb (the "created by" frame), i.e.
+// background activity the plugin owns; goroutines of the harness that merely call into the plugin do not count.
 func repoGoroutines() int {
-	buf := make([]byte, 1<<20)
+	buf := make([]byte, 4<<20)
 	buf = buf[:runtime.Stack(buf, true)]
 	n := 0
 	for _, g := range strings.Split(string(buf), "\n\n") {
-		if strings.Contains(g, "caddy-revocation-validator/") && !strings.Contains(g, "verifharness") || strings.Contains(g, "goleveldb") {
+		i := strings.LastIndex(g, "created by ")
+		if i < 0 {
+			continue
+		}
+		creator := g[i:]
+		if strings.Contains(creator, "caddy-revocation-validator/") || strings.Contains(creator, "goleveldb") {
 			n++
 		}
 	}
